@@ -43,9 +43,24 @@ Fixpoint mask {A} (l:list A) (m:list bool) : list A :=
 
 Definition day_of (dlen:Z) (origin t:Z) : Z := (t - origin) / dlen.
 
+(* numpy broadcasting of a binary elementwise operation over two 1-d arrays: equal lengths
+   zip; a length-1 operand is stretched to the other's length (also to length 0); anything
+   else is "operands could not be broadcast together" (ValueError). *)
+Definition bcast {A B C} (f:A -> B -> C) (la:list A) (lb:list B) : res (list C) :=
+  if len la =? len lb then Ok (map (fun p => f (fst p) (snd p)) (combine la lb))
+  else match la, lb with
+       | [a], _ => Ok (map (f a) lb)
+       | _, [b] => Ok (map (fun a => f a b) la)
+       | _, _ => Raise E_ValueError
+       end.
+
 (* filter: None or a list of flags (int8 / bool, non-zero = selected; after the fix of
-   F-C20a the int8 form is converted with astype(bool) first).  A filter whose length
-   differs from the field's makes numpy raise (IndexError / ValueError): Raise. *)
+   F-C20a the int8 form is converted with astype(bool) first).
+   A filter whose length differs from the field's is outside the property, but it is modelled
+   as the code behaves: `in_range & (date_field >= start)` broadcasts (length-1 operand) or
+   raises ValueError; `date_field[date_filter]` raises IndexError, except that numpy accepts
+   an EMPTY boolean mask on an array of any length and selects nothing (found by the
+   correspondence run). *)
 Definition get_days (dlen:Z) (ts:list Z) (flt:option (list bool)) (s e:option Z)
   : res (list Z * option (list bool)) :=
   match flt, s, e with
@@ -55,23 +70,30 @@ Definition get_days (dlen:Z) (ts:list Z) (flt:option (list bool)) (s e:option Z)
     | Some m => Ok (map (day_of dlen m) ts, None)
     end
   | _, _, _ =>
-    do in0 <- match flt with
-              | None => Ok (map (fun _ => true) ts)
-              | Some f => if len f =? len ts then Ok f else Raise E_IndexError
-              end;
+    let in0 := match flt with
+               | None => map (fun _ => true) ts
+               | Some f => f
+               end in
     do '(origin, in1) <-
        match s with
-       | Some sd => Ok (sd, map (fun p => (fst p) && (sd <=? snd p)) (combine in0 ts))
+       | Some sd =>
+         do r <- bcast andb in0 (map (fun t => sd <=? t) ts);
+         Ok (sd, r)
        | None =>
-         match minimum (match flt with None => ts | Some f => mask ts f end) with
+         do sel <- match flt with
+                   | None => Ok ts
+                   | Some f => if (len f =? len ts) || (len f =? 0) then Ok (mask ts f)
+                               else Raise E_IndexError
+                   end;
+         match minimum sel with
          | None => Raise E_ValueError
          | Some m => Ok (m, in0)
          end
        end;
-    let in2 := match e with
-               | Some ed => map (fun p => (fst p) && (snd p <? ed)) (combine in1 ts)
-               | None => in1
-               end in
+    do in2 <- match e with
+              | Some ed => bcast andb in1 (map (fun t => t <? ed) ts)
+              | None => Ok in1
+              end;
     Ok (map (day_of dlen origin) ts, Some in2)
   end.
 
@@ -123,13 +145,51 @@ Fixpoint map_res {A B} (f:A -> res B) (l:list A) : res (list B) :=
   | x :: t => do y <- f x; do t' <- map_res f t; Ok (y :: t')
   end.
 
+(* periods = np.full(len(days), -1); periods[in_range] = values  (boolean-mask assignment) *)
+Fixpoint scatter (days:list Z) (fl:list bool) (vals:list Z) : list Z :=
+  match days with
+  | [] => []
+  | _ :: dt =>
+    match fl with
+    | true :: ft =>
+      match vals with
+      | v :: vt => v :: scatter dt ft vt
+      | [] => -1 :: scatter dt ft []
+      end
+    | false :: ft => -1 :: scatter dt ft vals
+    | [] => -1 :: scatter dt [] vals
+    end
+  end.
+
+(* after the fix of F-C20c only the in-range days index the map:
+     in_range = np.asarray(in_range, dtype=bool)
+     periods = np.full(len(days), -1, dtype=periods_by_day.dtype)
+     periods[in_range] = periods_by_day[days[in_range]]
+   `days[in_range]` with a boolean mask of another length raises IndexError, except that numpy
+   accepts an empty mask (selects nothing). *)
 Definition get_period_offsets (pbd days:list Z) (in_range:option (list bool)) : res (list Z) :=
   match in_range with
   | None => map_res (np_index 1 pbd) days
   | Some fl =>
-    if negb (len fl =? len days) then Raise E_ValueError
-    else
-      let idx := map (fun p:bool*Z => if fst p then snd p else 0) (combine fl days) in
-      do per <- map_res (np_index 2 pbd) idx;
-      Ok (map (fun p:bool*Z => if fst p then snd p else -1) (combine fl per))
+    if (len fl =? len days) || (len fl =? 0) then
+      do vals <- map_res (np_index 2 pbd) (mask days fl);
+      Ok (scatter days fl vals)
+    else Raise E_IndexError
+  end.
+
+(* ---- the code BEFORE the fixes, kept only to state the `_refuted` theorems ---- *)
+(* F-C20c: get_period_offsets indexed the map for every entry (0 where the flag is off):
+     periods = np.where(in_range, days, 0); periods = periods_by_day[periods];
+     periods = np.where(in_range, periods, -1) *)
+Definition get_period_offsets_prefix (pbd days:list Z) (fl:list bool) : res (list Z) :=
+  do idx <- bcast (fun (b:bool) (d:Z) => if b then d else 0) fl days;
+  do per <- map_res (np_index 2 pbd) idx;
+  bcast (fun (b:bool) (p:Z) => if b then p else -1) fl per.
+
+(* F-C20a: an int8 filter was used as an integer index array: min(date_field[[0,0,1,1]]) *)
+Definition get_days_origin_int8_prefix (ts:list Z) (f:list bool) : res Z :=
+  do sel <- map_res (fun b:bool => np_index 3 ts (if b then 1 else 0)) f;
+  match minimum sel with
+  | None => Raise E_ValueError
+  | Some m => Ok m
   end.
